@@ -2,8 +2,14 @@
 
 package wasm
 
-import "github.com/tetratelabs/wazero/internal/verifrt"
+import (
+	"math"
 
+	"github.com/tetratelabs/wazero/api"
+	"github.com/tetratelabs/wazero/internal/verifrt"
+)
+
+// verifMem: an arbitrary memory of 0..65536 pages with arbitrary contents.
 func verifMem() (*MemoryInstance, uint64) {
 	pages := verifrt.U32("pages")
 	verifrt.Assume(pages <= 65536)
@@ -28,4 +34,209 @@ func VerifC14_HostRead() {
 	} else {
 		verifrt.Cover("read-refused")
 	}
+}
+
+func leAt(m *MemoryInstance, off uint64, n int) uint64 {
+	var v uint64
+	for i := 0; i < n; i++ {
+		v |= uint64(verifrt.Initial(m.Buffer, off+uint64(i))) << (8 * uint(i))
+	}
+	return v
+}
+
+// VerifC14_HostReadScalars: every fixed-width reader succeeds iff off+width <= size and returns the little-endian value.
+func VerifC14_HostReadScalars() {
+	m, size := verifMem()
+	off := verifrt.U32("off")
+	switch verifrt.Choose("kind", 7) {
+	case 0:
+		v, ok := m.ReadByte(off)
+		verifrt.Assert(ok == (uint64(off)+1 <= size), "ReadByte ok iff in range")
+		if ok {
+			verifrt.Assert(uint64(v) == leAt(m, uint64(off), 1), "ReadByte value")
+			verifrt.Cover("byte")
+		}
+	case 1:
+		v, ok := m.ReadUint16Le(off)
+		verifrt.Assert(ok == (uint64(off)+2 <= size), "ReadUint16Le ok iff in range")
+		if ok {
+			verifrt.Assert(uint64(v) == leAt(m, uint64(off), 2), "ReadUint16Le value")
+			verifrt.Cover("u16")
+		}
+	case 2:
+		v, ok := m.ReadUint32Le(off)
+		verifrt.Assert(ok == (uint64(off)+4 <= size), "ReadUint32Le ok iff in range")
+		if ok {
+			verifrt.Assert(uint64(v) == leAt(m, uint64(off), 4), "ReadUint32Le value")
+			verifrt.Cover("u32")
+		}
+	case 3:
+		v, ok := m.ReadUint64Le(off)
+		verifrt.Assert(ok == (uint64(off)+8 <= size), "ReadUint64Le ok iff in range")
+		if ok {
+			verifrt.Assert(v == leAt(m, uint64(off), 8), "ReadUint64Le value")
+			verifrt.Cover("u64")
+		}
+	case 4:
+		v, ok := m.ReadFloat32Le(off)
+		verifrt.Assert(ok == (uint64(off)+4 <= size), "ReadFloat32Le ok iff in range")
+		if ok {
+			verifrt.Assert(uint64(math.Float32bits(v)) == leAt(m, uint64(off), 4), "ReadFloat32Le bits")
+			verifrt.Cover("f32")
+		}
+	case 5:
+		v, ok := m.ReadFloat64Le(off)
+		verifrt.Assert(ok == (uint64(off)+8 <= size), "ReadFloat64Le ok iff in range")
+		if ok {
+			verifrt.Assert(math.Float64bits(v) == leAt(m, uint64(off), 8), "ReadFloat64Le bits")
+			verifrt.Cover("f64")
+		}
+	case 6:
+		verifrt.Assert(uint64(m.Pages())<<16 == size, "Pages reports the size")
+		verifrt.Assert(size == 1<<32 || uint64(m.Size()) == size, "Size reports the size below 4GiB")
+		verifrt.Cover("size")
+	}
+}
+
+// VerifC14_HostWriteScalars: every fixed-width writer succeeds iff off+width <= size, writes exactly the addressed bytes.
+func VerifC14_HostWriteScalars() {
+	m, size := verifMem()
+	off := verifrt.U32("off")
+	val := verifrt.U64("val")
+	probe := verifrt.U64("probe") // an arbitrary other byte of the memory
+	verifrt.Assume(probe < size)
+	var w uint64
+	var ok bool
+	switch verifrt.Choose("kind", 6) {
+	case 0:
+		w, ok = 1, m.WriteByte(off, byte(val))
+	case 1:
+		w, ok = 2, m.WriteUint16Le(off, uint16(val))
+	case 2:
+		w, ok = 4, m.WriteUint32Le(off, uint32(val))
+	case 3:
+		w, ok = 8, m.WriteUint64Le(off, val)
+	case 4:
+		w, ok = 4, m.WriteFloat32Le(off, math.Float32frombits(uint32(val)))
+	case 5:
+		w, ok = 8, m.WriteFloat64Le(off, math.Float64frombits(val))
+	}
+	verifrt.Assert(ok == (uint64(off)+w <= size), "write ok iff offset+width within size")
+	if ok {
+		k := uint64(verifrt.Choose("k", 8)) // byte of the value, concrete so that the shift is by a constant
+		if k < w {
+			verifrt.Assert(m.Buffer[uint64(off)+k] == byte(val>>(8*k)), "written byte is the little-endian byte of the value")
+			verifrt.Cover("inside")
+		}
+	}
+	if !(ok && probe >= uint64(off) && probe < uint64(off)+w) {
+		verifrt.Assert(m.Buffer[probe] == verifrt.Initial(m.Buffer, probe), "bytes outside the addressed range are unchanged (all bytes when refused)")
+		verifrt.Cover("outside")
+	}
+}
+
+// VerifC14_HostWriteBytes: Write / WriteString with an arbitrary source length.
+func VerifC14_HostWriteBytes() {
+	m, size := verifMem()
+	off := verifrt.U32("off")
+	n := verifrt.U32("n")
+	verifrt.Assume(n <= 1<<20) // source buffer bound (the length check is uniform in n)
+	src := verifrt.Bytes("src", uint64(n))
+	probe := verifrt.U64("probe")
+	verifrt.Assume(probe < size)
+	ok := m.Write(off, src)
+	verifrt.Assert(ok == (uint64(off)+uint64(n) <= size), "Write ok iff offset+length within size")
+	if ok && probe >= uint64(off) && probe < uint64(off)+uint64(n) {
+		verifrt.Assert(m.Buffer[probe] == verifrt.Initial(src, probe-uint64(off)), "Write copies the source bytes")
+		verifrt.Cover("inside")
+	} else {
+		verifrt.Assert(m.Buffer[probe] == verifrt.Initial(m.Buffer, probe), "Write leaves other bytes unchanged")
+		verifrt.Cover("outside")
+	}
+}
+
+// VerifC14_HostWriteString: strings of 0..3 bytes.
+func VerifC14_HostWriteString() {
+	m, size := verifMem()
+	off := verifrt.U32("off")
+	n := verifrt.Choose("len", 4)
+	s := verifrt.String("s", n)
+	probe := verifrt.U64("probe")
+	verifrt.Assume(probe < size)
+	ok := m.WriteString(off, s)
+	verifrt.Assert(ok == (uint64(off)+uint64(n) <= size), "WriteString ok iff offset+length within size")
+	if ok && probe >= uint64(off) && probe < uint64(off)+uint64(n) {
+		verifrt.Assert(m.Buffer[probe] == s[probe-uint64(off)], "WriteString copies the bytes")
+		verifrt.Cover("inside")
+	} else {
+		verifrt.Assert(m.Buffer[probe] == verifrt.Initial(m.Buffer, probe), "WriteString leaves other bytes unchanged")
+		verifrt.Cover("outside")
+	}
+}
+
+// ---- growth
+
+type verifEngineStub struct{ grown int }
+
+func (e *verifEngineStub) DoneInstantiation()                                        {}
+func (e *verifEngineStub) NewFunction(Index) api.Function                            { return nil }
+func (e *verifEngineStub) ResolveImportedFunction(_, _, _ Index, _ ModuleEngine)     {}
+func (e *verifEngineStub) ResolveImportedMemory(ModuleEngine)                        {}
+func (e *verifEngineStub) LookupFunction(*TableInstance, FunctionTypeID, Index) (*ModuleInstance, Index) {
+	return nil, 0
+}
+func (e *verifEngineStub) GetGlobalValue(Index) (uint64, uint64) { return 0, 0 }
+func (e *verifEngineStub) SetGlobalValue(Index, uint64, uint64)  {}
+func (e *verifEngineStub) OwnsGlobals() bool                     { return false }
+func (e *verifEngineStub) FunctionInstanceReference(Index) Reference { return 0 }
+func (e *verifEngineStub) MemoryGrown()                          { e.grown++ }
+
+// VerifC14_Grow: one Grow from an arbitrary state satisfying the size invariant (non-shared, default allocator).
+func VerifC14_Grow() {
+	pages, cp, max := verifrt.U32("pages"), verifrt.U32("cap"), verifrt.U32("max")
+	verifrt.Assume(pages <= cp && cp <= max && max <= 65536) // representation invariant
+	eng := &verifEngineStub{}
+	buf := verifrt.Bytes("mem", uint64(cp)<<16)
+	m := &MemoryInstance{Buffer: buf[:uint64(pages)<<16], Min: 0, Cap: cp, Max: max, ownerModuleEngine: eng}
+	delta := verifrt.U32("delta")
+	probe := verifrt.U64("probe")
+
+	res, ok := m.Grow(delta)
+
+	want := uint64(pages)+uint64(delta) <= uint64(max)
+	verifrt.Assert(ok == want, "Grow succeeds iff pages+delta <= max")
+	if !ok {
+		verifrt.Assert(uint64(len(m.Buffer)) == uint64(pages)<<16, "failed Grow leaves the size unchanged")
+		verifrt.Cover("refused")
+		return
+	}
+	verifrt.Assert(res == pages, "Grow returns the previous size")
+	newPages := pages + delta
+	verifrt.Assert(uint64(len(m.Buffer)) == uint64(newPages)<<16, "size after Grow is pages+delta")
+	verifrt.Assert(m.Pages() == newPages, "Pages reports the new size")
+	verifrt.Assert(m.Cap >= newPages && uint64(cap(m.Buffer)) >= uint64(len(m.Buffer)), "capacity covers the size")
+	verifrt.Assert(delta == 0 || eng.grown == 1, "engine is told about growth")
+	verifrt.Assume(probe < uint64(newPages)<<16)
+	if probe < uint64(pages)<<16 {
+		verifrt.Assert(m.Buffer[probe] == verifrt.Initial(buf, probe), "Grow preserves existing contents")
+		verifrt.Cover("old")
+	} else {
+		// capacity beyond the length is zero in every reachable state (make zero-fills, memories never shrink)
+		verifrt.Assume(probe >= uint64(cp)<<16 || verifrt.Initial(buf, probe) == 0)
+		verifrt.Assert(m.Buffer[probe] == 0, "new pages read as zero")
+		verifrt.Cover("new")
+	}
+}
+
+// VerifC14_NewMemory: construction from a validated memory type.
+func VerifC14_NewMemory() {
+	min, cp, max := verifrt.U32("min"), verifrt.U32("cap"), verifrt.U32("max")
+	verifrt.Assume(min <= cp && cp <= max && max <= 65536)
+	m := NewMemoryInstance(&Memory{Min: min, Cap: cp, Max: max}, nil, &verifEngineStub{})
+	verifrt.Assert(uint64(len(m.Buffer)) == uint64(min)<<16, "initial size is the minimum")
+	verifrt.Assert(m.Pages() == min && m.Max == max && m.Cap >= min, "limits recorded")
+	probe := verifrt.U64("probe")
+	verifrt.Assume(probe < uint64(min)<<16)
+	verifrt.Assert(m.Buffer[probe] == 0, "fresh memory is zero")
+	verifrt.Cover("made")
 }
